@@ -96,7 +96,6 @@ func (c *LazyCase) Run(render func() *hx.RNG) (string, error) {
 		t0 := time.Now()
 		var steps []string
 		var rerr error
-		slowWait := time.Duration(0)
 		for _, st := range c.Steps {
 			switch st.Kind {
 			case "expire":
@@ -120,9 +119,7 @@ func (c *LazyCase) Run(render func() *hx.RNG) (string, error) {
 				}
 				steps = append(steps, fmt.Sprintf("(LQ %s %s)", o.coq, storedCoq(b, st.A.Msg)))
 			case "pair":
-				tw := time.Now()
 				s, err := runPair(h, sp, rec, b, st.A, st.B, baseline)
-				slowWait += time.Since(tw)
 				if err != nil {
 					rerr = err
 					break
